@@ -849,6 +849,70 @@ def build(tier='quick', seed=0):
     return crates
 
 
+def build_tests(tier='quick'):
+    """declarations whose *generated unit tests* (cfg(test)) are analysed: contradictory expression bounds
+    and invalid defaults must make the generated test fail (C08). expect_test: 'fails' | 'passes'"""
+    ds = []
+    thorough = tier == 'thorough'
+
+    def add(d, consistent_test=None, default_test=None):
+        d['expect_tests'] = {'consistent': consistent_test, 'default': default_test}
+        ds.append(d)
+    for t in (['i32', 'u8', 'i128'] if not thorough else INT_TYPES_ALL):
+        U = t.upper()
+        cases = [((f'K_{U}', K), (f'K_{U} * 2', K * 2)), ((f'K_{U}', K), (f'K_{U}', K)), ((f'K_{U} * 2', K * 2), (f'K_{U}', K)),
+                 ((f'K_{U} + 1', K + 1), (f'K_{U}', K))]
+        for (lt, lv), (ut, uv) in cases:
+            for lo, up in itertools.product(['greater', 'greater_or_equal'], ['less', 'less_or_equal']):
+                lo_eff = lv + 1 if lo == 'greater' else lv
+                hi_eff = uv - 1 if up == 'less' else uv
+                if lv == uv:
+                    empty = not (lo == 'greater_or_equal' and up == 'less_or_equal')
+                elif lv < uv:
+                    empty = lo_eff > hi_eff
+                else:
+                    empty = True
+                add(decl('int', t, validators=[V(lo, lt, lv, 'expr'), V(up, ut, uv, 'expr')], derives=['Debug'], tags=['gentest']),
+                    consistent_test='fails' if empty else 'passes')
+        add(decl('int', t, validators=[V('greater_or_equal', f'K_{U}', K, 'expr')], derives=['Debug', 'Default'], default={'text': f'K_{U} - 1', 'value': K - 1},
+                 tags=['gentest']), default_test='fails')
+        add(decl('int', t, validators=[V('greater_or_equal', f'K_{U}', K, 'expr')], derives=['Debug', 'Default'], default={'text': f'K_{U}', 'value': K},
+                 tags=['gentest']), default_test='passes')
+        add(decl('int', t, validators=[V('less', '10', 10, 'lit')], derives=['Debug', 'Default'], default={'text': '10', 'value': 10}, tags=['gentest']),
+            default_test='fails')
+    for t in FLOAT_TYPES:
+        U = t.upper()
+        cases = [((f'KF_{U}', KF), (f'KF_{U} * 2.0', KF * 2)), ((f'KF_{U}', KF), (f'KF_{U}', KF)), ((f'KF_{U} * 2.0', KF * 2), (f'KF_{U}', KF))]
+        for (lt, lv), (ut, uv) in cases:
+            for lo, up in itertools.product(['greater', 'greater_or_equal'], ['less', 'less_or_equal']):
+                if lv == uv:
+                    empty = not (lo == 'greater_or_equal' and up == 'less_or_equal')
+                else:
+                    empty = lv > uv
+                add(decl('float', t, validators=[V(lo, lt, lv, 'expr'), V(up, ut, uv, 'expr')], derives=['Debug'], tags=['gentest']),
+                    consistent_test='fails' if empty else 'passes')
+        add(decl('float', t, validators=[V('finite'), V('greater', '0', 0.0, 'lit')], derives=['Debug', 'Default'], default={'text': '0.0', 'value': 0.0},
+                 tags=['gentest']), default_test='fails')
+        add(decl('float', t, validators=[V('finite')], derives=['Debug', 'Default'], default={'text': f'{t}::INFINITY', 'value': float('inf')},
+                 tags=['gentest']), default_test='fails')
+        add(decl('float', t, validators=[V('finite')], derives=['Debug', 'Default'], default={'text': '1.5', 'value': 1.5}, tags=['gentest']),
+            default_test='passes')
+    for (a, av), (b, bv) in ((('MINLEN', MINLEN), ('MAXLEN', MAXLEN)), (('MAXLEN', MAXLEN), ('MINLEN', MINLEN)), (('MINLEN', MINLEN), ('MINLEN', MINLEN)),
+                             (('MINLEN + 1', MINLEN + 1), ('MINLEN', MINLEN))):
+        add(decl('string', 'String', validators=[V('len_char_min', a, av, 'expr'), V('len_char_max', b, bv, 'expr')], derives=['Debug'], tags=['gentest']),
+            consistent_test='fails' if av > bv else 'passes')
+    add(decl('string', 'String', validators=[V('not_empty')], derives=['Debug', 'Default'], default={'text': '""', 'value': ''}, tags=['gentest']),
+        default_test='fails')
+    add(decl('string', 'String', sanitizers=[S('trim')], validators=[V('not_empty')], derives=['Debug', 'Default'], default={'text': '"   "', 'value': '   '},
+             tags=['gentest']), default_test='fails')
+    add(decl('string', 'String', sanitizers=[S('trim')], validators=[V('not_empty')], derives=['Debug', 'Default'], default={'text': '" a "', 'value': ' a '},
+             tags=['gentest']), default_test='passes')
+    for i, d in enumerate(ds):
+        d['name'] = f'G{i:04d}'
+    return {'ctests': {'features': ['serde', 'arbitrary', 'new_unchecked', 'regex'], 'std': True,
+                       'prelude': PRELUDE_STD + PRELUDE_REGEX + numeric_prelude(), 'decls': ds}}
+
+
 def crate_source(c):
     """Source text of a corpus crate; fills d['line'] (line of `#[nutype(`) and closure positions."""
     out = c['prelude'] + '\n'
